@@ -295,6 +295,20 @@ func examplesRun(args []string) error {
 		}
 		fmt.Printf("%s\t%q\t%s\n", e.name, "", checkOutcome(e, ""))
 	}
+	// string literals the lexer accepts but Unquote rejects, the bad escape preceded by multi-byte text and line breaks inside the
+	// token: the error must still denote a real location of the input
+	for _, e := range examples() {
+		if e.name != "json" && e.name != "ini" {
+			continue
+		}
+		for _, lit := range []string{`"\400"`, `"é\400"`, `"ééé \ud800 x"`, "\"a\\\n\\400\"", `"日本語\xZZ"`, `"\u12"`, `"ok" "é\400"`} {
+			in := "[" + lit + "]"
+			if e.name == "ini" {
+				in = "k = " + lit
+			}
+			fmt.Printf("%s\t%q\t%s\n", e.name, in, checkOutcome(e, in))
+		}
+	}
 	return nil
 }
 
